@@ -41,6 +41,12 @@ def _spec(module):
             'units': {'cJSON.c': 'string_bad.c', 'cJSON_Utils.c': 'utils_min.c'},
             'rules': [lambda units, R: bnd3._run(units['cJSON.c'], names3, R, 0)],
         }]
+    if module == 'tree':
+        from . import tree
+        return [{
+            'units': {'cJSON.c': 'tree_bad.c', 'cJSON_Utils.c': 'utils_min.c'},
+            'rules': [tree.tab3, tree.tab14, tree.eff6, tree.c12_structure, tree.lst4, tree.lst2, tree.lst3],
+        }]
     raise AnalysisBroken('no fixture spec for module %s' % module)
 
 
